@@ -105,7 +105,7 @@ def gen_case(rng, tier):
             if rng.random() < 0.1:
                 # the call is interrupted after that many executed library lines; the memo
                 # tables keep whatever it had written
-                ops[-1]["interrupt"] = int(10 ** rng.uniform(0, 3.2))
+                ops[-1]["interrupt"] = int(10 ** rng.uniform(0, 3.2)) if rng.random() < 0.9 else {"guided": round(rng.random(), 3)}
         elif r < 0.9:
             ops.append({"op": "memo_flush", "which": rng.choice(["poly", "insenc", "both"])})
         elif r < 0.94:
@@ -386,7 +386,12 @@ def execute(case):
             if op.get("interrupt"):
                 import os  # pylint: disable=import-outside-toplevel
 
-                status, res, _n = histsim.run_interruptible(call, op["interrupt"], [os.path.join(core.repo_dir(), "permuta") + os.sep])
+                pref = [os.path.join(core.repo_dir(), "permuta") + os.sep]
+                at = op["interrupt"]
+                if isinstance(at, dict):
+                    at = histsim.guided_interrupt_at(call, pref, at["guided"])
+                    out.probe("guided_interrupt" if at else "guided_interrupt_no_state_change")
+                status, res, _n = histsim.run_interruptible(call, at or 10 ** 9, pref)
                 if status == "interrupted":
                     out.fault("interrupted_call")
                     out.probe("interrupted_call")
